@@ -136,3 +136,131 @@ def bose_permutations(leaf_names, event_type_final):
     n = len(leaf_names)
     return [p for p in itertools.permutations(range(len(event_type_final)), n)
             if all(event_type_final[p[i]] == leaf_names[i] for i in range(n))]
+
+
+# ------------------------------------------------------------------------------------------------
+# spin structure of the vocabulary (own copy; J and the letter used in the spin-structure key)
+SPIN = {  # name -> (J, letter)   letter: V vector, A axial, S scalar, T tensor, s pseudoscalar, t pseudotensor
+    "D0": (0, "s"), "K-": (0, "s"), "K+": (0, "s"), "pi+": (0, "s"), "pi-": (0, "s"),
+    "K*(892)bar0": (1, "V"), "K*(892)0": (1, "V"), "rho(770)0": (1, "V"), "rho(1450)0": (1, "V"), "omega(782)0": (1, "V"), "phi(1020)0": (1, "V"),
+    "K(1)(1270)bar-": (1, "A"), "K(1)(1270)+": (1, "A"), "K(1)(1400)bar-": (1, "A"), "a(1)(1260)+": (1, "A"), "a(1)(1260)-": (1, "A"),
+    "K(2)*(1430)bar-": (2, "T"), "K(1460)bar-": (0, "s"),
+    "PiPi00": (0, "S"), "PiPi10": (0, "S"), "PiPi20": (0, "S"), "PiPi30": (0, "S"), "KPi00": (0, "S"), "KPi10": (0, "S"), "KPi20": (0, "S"),
+}
+# frozen copy of the table "spin structure -> spin factor(s)" (the definition of "the amplitude's spin factors")
+SPINFACTORS = {
+    "DtoA1P1_A1toS2P2_S2toP3P4": ["DtoAP1_AtoSP2_StoP3P4"],
+    "DtoA1P1_A1toV2P2Dwave_V2toP3P4": ["DtoAP1_AtoVP2Dwave_VtoP3P4"],
+    "DtoA1P1_A1toV2P2_V2toP3P4": ["DtoAP1_AtoVP2Dwave_VtoP3P4"],
+    "DtoS1S2_S1toP1P2_S2toP3P4": ["ONE"],
+    "DtoT1P1_T1toV2P2_V2toP3P4": ["DtoTP1_TtoVP2_VtoP3P4"],
+    "DtoV1S2_V1toP1P2_S2toP3P4": ["DtoVS_VtoP1P2_StoP3P4"],
+    "DtoV1V2_V1toP1P2_V2toP3P4": ["DtoV1V2_V1toP1P2_V2toP3P4_S"],
+    "DtoV1V2_V1toP1P2_V2toP3P4_D": ["DtoV1V2_V1toP1P2_V2toP3P4_D"],
+    "DtoV1V2_V1toP1P2_V2toP3P4_P": ["DtoV1V2_V1toP1P2_V2toP3P4_P"],
+    "Dtos1P1_s1toS2P2_S2toP3P4": ["DtoPP1_PtoSP2_StoP3P4"],
+    "Dtos1P1_s1toV2P2_V2toP3P4": ["DtoPP1_PtoVP2_VtoP3P4"],
+}
+LS_KIND = {None: "RBW", "": "RBW"}
+
+
+def ls_kind(tag):
+    if not tag:
+        return "RBW"
+    if tag == "GSpline.EFF":
+        return "GSpline"
+    if tag.startswith("kMatrix"):
+        return "kMatrix"
+    if tag.startswith("FOCUS"):
+        return "FOCUS"
+    raise ValueError(tag)
+
+
+def orbital_L(t):
+    """Orbital angular momentum of a two-body vertex: the tag if written, else the minimal L of the triangle rule."""
+    n, sp, _ls, ds = t
+    if sp:
+        return "SPDF".index(sp)
+    S = SPIN[n][0]
+    s1, s2 = SPIN[ds[0][0]][0], SPIN[ds[1][0]][0]
+    return min(abs(S - s1 - s2), abs(S + s1 - s2), abs(S - s1 + s2))
+
+
+def is_vertex(t):
+    return bool(t[3]) and len(t[3]) == 2
+
+
+def vertexes(t):
+    out = []
+    for d in t[3] or []:
+        if is_vertex(d):
+            out.append(d)
+            out += vertexes(d)
+    return out
+
+
+def code_structure(t, event_final):
+    """What the generated code of amplitude t must contain (C18): permutations, spin factors, lineshapes."""
+    top = t
+    d0, d1 = top[3]
+    two_two = is_vertex(d0) and is_vertex(d1)
+    if two_two:
+        a, b = SPIN[d0[0]][1] + "1", SPIN[d1[0]][1] + "2"
+        key = f"Dto{a}{b}_{a}toP1P2_{b}toP3P4" + (f"_{top[1]}" if top[1] and top[1] != "S" else "")
+    else:
+        a = SPIN[d0[0]][1] + "1"
+        b = SPIN[d0[3][0][0]][1] + "2"
+        wave = f"{d0[1]}wave" if d0[1] and d0[1] != "S" else ""
+        key = f"Dto{a}P1_{a}to{b}P2{wave}_{b}toP3P4"
+    sfs = list(SPINFACTORS[key])
+    L = orbital_L(top)
+    if L == 1:
+        sfs.append("FF_12_34_L1" if two_two else "FF_123_4_L1")
+    elif L == 2:
+        sfs.append("FF_12_34_L2" if two_two else "FF_123_4_L2")
+    elif L > 2:
+        raise ValueError("L>2")
+    perms = bose_permutations(leaves_of(t), event_final)
+    per_perm = []
+    for p in perms:
+        if two_two:
+            masses = [f"M_{p[0]+1}{p[1]+1}", f"M_{p[2]+1}{p[3]+1}"]
+        else:
+            masses = [f"M_{p[0]+1}{p[1]+1}_{p[2]+1}", f"M_{p[0]+1}{p[1]+1}"]
+        lss = [(ls_kind(v[2]), v[0], orbital_L(v), masses[i]) for i, v in enumerate(vertexes(t))]
+        per_perm.append({"perm": tuple(p), "spinfactors": sorted(sfs), "lineshapes": lss})
+    return {"key": key, "n": len(perms), "per_perm": per_perm}
+
+
+# ---- front-ends that read the generated text back --------------------------------------------------
+import re  # noqa: E402
+
+_SF_CPP = re.compile(r'new SpinFactor\("SF", SF_4Body::(\w+)\s*, (\d), (\d), (\d), (\d)\)')
+_SF_PY = re.compile(r'SpinFactor\("SF", SF_4Body\.(\w+)\s*, (\d), (\d), (\d), (\d)\)')
+_LS_CPP = re.compile(r'new Lineshapes::(\w+)\("([^"]+)",(.*?)(M_\d\d(?:_\d)?), FF::BL2', re.S)
+_LS_PY = re.compile(r'Lineshapes\.(\w+)\("([^"]+)",(.*?)(M_\d\d(?:_\d)?), FF\.BL2', re.S)
+_N_CPP = re.compile(r"spin_factor_list\.back\(\),\s*(\d+)\}\)")
+_N_PY = re.compile(r"spin_factor_list\[-1\],\s*(\d+)\)\)")
+
+
+def read_amplitude_code(text, lang):
+    """-> {"spinfactors": [(name, (i,j,k,l))...], "lineshapes": [(kind, name, L, mass)...], "n": [declared counts]}"""
+    sf = (_SF_CPP if lang == "cpp" else _SF_PY).findall(text)
+    ls = (_LS_CPP if lang == "cpp" else _LS_PY).findall(text)
+    n = (_N_CPP if lang == "cpp" else _N_PY).findall(text)
+    out_ls = []
+    for kind, name, args, mass in ls:
+        m = re.search(r",\s*(\d+(?:\.\d+)?),\s*$", args)
+        out_ls.append((kind, name, int(float(m.group(1))) if m else None, mass))
+    return {"spinfactors": [(s[0], tuple(int(x) for x in s[1:])) for s in sf], "lineshapes": out_ls, "n": [int(x) for x in n]}
+
+
+def perm_of_masses(masses, two_two):
+    """Positions encoded in the mass symbols of one permutation block."""
+    if two_two:
+        a, b = masses[0][2:], masses[1][2:]
+        return (int(a[0]) - 1, int(a[1]) - 1, int(b[0]) - 1, int(b[1]) - 1)
+    a = masses[0][2:]
+    p = [int(a[0]) - 1, int(a[1]) - 1, int(a[3]) - 1]
+    rest = [i for i in range(4) if i not in p]
+    return tuple(p + rest)
